@@ -132,6 +132,46 @@ async fn wsv(_rq: RequestContext<()>, upgrade: WebsocketUpgrade) -> WebsocketEnd
         Ok(())
     })
 }
+/// A channel that speaks fixed-size records: reads exactly 8 bytes (read_exact, i.e. into a buffer
+/// that is already partly filled whenever a record arrives in pieces) and echoes the record.
+async fn wsrec(_rq: RequestContext<()>, upgrade: WebsocketUpgrade) -> WebsocketEndpointResult {
+    upgrade.handle(move |conn: WebsocketConnection| async move {
+        use tokio::io::{AsyncReadExt, AsyncWriteExt};
+        let mut io = conn.into_inner();
+        let mut rec = [0u8; 8];
+        while io.read_exact(&mut rec).await.is_ok() {
+            if io.write_all(&rec).await.is_err() {
+                break;
+            }
+        }
+        Ok(())
+    })
+}
+/// The same with read_buf into a growing buffer that is never empty after the first read.
+async fn wsbuf(_rq: RequestContext<()>, upgrade: WebsocketUpgrade) -> WebsocketEndpointResult {
+    upgrade.handle(move |conn: WebsocketConnection| async move {
+        use tokio::io::{AsyncReadExt, AsyncWriteExt};
+        let mut io = conn.into_inner();
+        let mut acc: Vec<u8> = Vec::with_capacity(64);
+        let mut sent = 0usize;
+        loop {
+            match io.read_buf(&mut acc).await {
+                Ok(0) | Err(_) => break,
+                Ok(_) => {
+                    // echo whole records only; keep everything in the buffer
+                    let upto = acc.len() / 8 * 8;
+                    if upto > sent {
+                        if io.write_all(&acc[sent..upto]).await.is_err() {
+                            break;
+                        }
+                        sent = upto;
+                    }
+                }
+            }
+        }
+        Ok(())
+    })
+}
 const PUSH_TOTAL: usize = 24 << 20;
 fn push_byte(i: usize) -> u8 {
     ((i / 1000) % 251) as u8 ^ (i % 7) as u8
@@ -167,6 +207,8 @@ fn api() -> ApiDescription<()> {
     api.register(ApiEndpoint::new("health".into(), health, http::Method::GET, ct, "/health", ApiEndpointVersions::All)).unwrap();
     api.register(ApiEndpoint::new("ws".into(), ws, http::Method::GET, ct, "/ws", ApiEndpointVersions::All)).unwrap();
     api.register(ApiEndpoint::new("wsv".into(), wsv, http::Method::GET, ct, "/wsv", ApiEndpointVersions::All)).unwrap();
+    api.register(ApiEndpoint::new("wsrec".into(), wsrec, http::Method::GET, ct, "/wsrec", ApiEndpointVersions::All)).unwrap();
+    api.register(ApiEndpoint::new("wsbuf".into(), wsbuf, http::Method::GET, ct, "/wsbuf", ApiEndpointVersions::All)).unwrap();
     api.register(ApiEndpoint::new("wspush".into(), wspush, http::Method::GET, ct, "/wspush", ApiEndpointVersions::All)).unwrap();
     api
 }
@@ -391,6 +433,109 @@ fn handshake(ctx: &Ctx, addr: std::net::SocketAddr, ci: usize, ui: usize, vi: us
     c.reset_on_close();
 }
 
+const CANON: &str = "connection: Upgrade\r\nupgrade: websocket\r\nsec-websocket-version: 13\r\nsec-websocket-key: dGhlIHNhbXBsZSBub25jZQ==\r\n";
+
+/// 12 records of 8 distinct bytes each, cut into pieces by `pattern` (cyclic piece lengths).
+fn record_stream() -> Vec<u8> {
+    (0..96u32).map(|i| (i.wrapping_mul(37) % 251) as u8).collect()
+}
+fn pieces(data: &[u8], pattern: &[usize]) -> Vec<Vec<u8>> {
+    let mut out = vec![];
+    let (mut at, mut k) = (0usize, 0usize);
+    while at < data.len() {
+        let n = pattern[k % pattern.len()].min(data.len() - at);
+        out.push(data[at..at + n].to_vec());
+        at += n;
+        k += 1;
+    }
+    out
+}
+
+fn segmentation_slice(ctx: &Ctx, plain: &LiveServer<()>, cn: &Cn) -> serde_json::Value {
+    let patterns: Vec<Vec<usize>> = vec![vec![96], vec![8], vec![4], vec![3, 2, 3], vec![1, 7], vec![7, 1], vec![1], vec![5], vec![12], vec![8, 3, 13]];
+    let id = vh::tls::self_signed();
+    let tls_srv = LiveServer::start(api(), (), ServerOpts { tls: Some(id.server_config()), ..Default::default() }).unwrap_or_else(|e| machinery_failure(&e));
+    let ccfg = id.client_config();
+    let data = record_stream();
+    let mut runs = 0u64;
+    let mut tls_upgrades = 0u64;
+    for path in ["/ws", "/wsrec", "/wsbuf", "/wsv"] {
+        for pat in &patterns {
+            for transport in ["tcp", "tls"] {
+                runs += 1;
+                let case = json!({"kind":"live_request","seam":"channel_segmentation","path": path, "transport": transport, "piece_lengths": pat});
+                let req = format!("GET {path} HTTP/1.1\r\nhost: h\r\n{CANON}\r\n");
+                let got: Result<Vec<u8>, String> = if transport == "tcp" {
+                    (|| {
+                        let mut c = Conn::connect(plain.addr).map_err(|e| e.to_string())?;
+                        c.send(req.as_bytes()).map_err(|e| e.to_string())?;
+                        let ReadOutcome::Resp(resp) = c.read_response(false, T) else { return Err("no response to the handshake".into()) };
+                        if resp.status != 101 {
+                            return Err(format!("status {}", resp.status));
+                        }
+                        for p in pieces(&data, pat) {
+                            c.send(&p).map_err(|e| e.to_string())?;
+                            std::thread::sleep(Duration::from_millis(3));
+                        }
+                        let mut out = c.buf.clone();
+                        let deadline = std::time::Instant::now() + Duration::from_secs(5);
+                        let mut tmp = [0u8; 4096];
+                        while out.len() < data.len() && std::time::Instant::now() < deadline {
+                            c.stream.set_read_timeout(Some(Duration::from_millis(500))).ok();
+                            match c.stream.read(&mut tmp) {
+                                Ok(0) => break,
+                                Ok(n) => out.extend_from_slice(&tmp[..n]),
+                                Err(e) if e.kind() == std::io::ErrorKind::WouldBlock || e.kind() == std::io::ErrorKind::TimedOut => {}
+                                Err(_) => break,
+                            }
+                        }
+                        Ok(out)
+                    })()
+                } else {
+                    (|| {
+                        let mut c = vh::tls::TlsConn::connect(tls_srv.addr, &ccfg).map_err(|e| e.to_string())?;
+                        c.handshake(T)?;
+                        let resp = c.roundtrip(req.as_bytes(), T)?;
+                        if resp.status != 101 {
+                            return Err(format!("status {}", resp.status));
+                        }
+                        if resp.header_str("sec-websocket-accept").as_deref() != Some(ref_accept(b"dGhlIHNhbXBsZSBub25jZQ==").as_str()) {
+                            return Err("wrong Sec-WebSocket-Accept over TLS".into());
+                        }
+                        tls_upgrades += 1;
+                        for p in pieces(&data, pat) {
+                            c.write_raw(&p)?;
+                            std::thread::sleep(Duration::from_millis(3));
+                        }
+                        Ok(c.read_raw(data.len(), Duration::from_secs(5)))
+                    })()
+                };
+                match got {
+                    Ok(g) if g == data => {
+                        cn.echoed_bytes.fetch_add(g.len() as u64, Ordering::Relaxed);
+                    }
+                    Ok(g) => {
+                        let first = g.iter().zip(data.iter()).position(|(a, b)| a != b).unwrap_or(g.len().min(data.len()));
+                        ctx.report(Violation {
+                            sig: json!({"kind":"channel_bytes_modified_or_lost","path": path, "transport": transport, "short": g.len() < data.len()}),
+                            case,
+                            expected: json!({"echo_of_bytes": data.len()}),
+                            observed: json!({"received": g.len(), "first_difference_at": first}),
+                        });
+                    }
+                    Err(e) => ctx.report(Violation {
+                        sig: json!({"kind":"channel_not_established","path": path, "transport": transport}),
+                        case,
+                        expected: json!("101, then an echo"),
+                        observed: json!(e),
+                    }),
+                }
+            }
+        }
+    }
+    json!({"runs": runs, "tls_upgrades": tls_upgrades, "paths": ["/ws (read)", "/wsrec (read_exact)", "/wsbuf (read_buf)", "/wsv (vectored writes)"], "piece_patterns": patterns, "record_bytes": data.len()})
+}
+
 fn main() {
     let args = parse_args();
     quiet_panics();
@@ -432,6 +577,10 @@ fn main() {
         let big = c < 9 && u < 6 && v < 2 && (i % 97 == 0 || (c, u, v) == (0, 0, 0));
         handshake(&ctx, srvs[i % srvs.len()].addr, c, u, v, k, big, &cn, &samples);
     });
+    // ---- segmentation: records that reach the handler in pieces (handlers that read with read /
+    // read_exact / read_buf), over plain TCP and over TLS
+    let segmentation = segmentation_slice(&ctx, &srvs[0], &cn);
+
     // ---- back-pressure: a slow reader, so the server's writes (plain and vectored) block part-way
     let mut backpressure = vec![];
     for (path, total) in [("/ws", 3usize << 20), ("/wsv", 3 << 20), ("/wsv", 700_000), ("/ws", 700_000)] {
@@ -532,6 +681,7 @@ fn main() {
 
     let cov = json!({
         "backpressure_echo": backpressure,
+        "segmentation_and_tls": segmentation,
         "evaluations": cn.handshakes.load(Ordering::Relaxed),
         "distinct_nontrivial": cn.accepted.load(Ordering::Relaxed),
         "rule": "handshakes = Connection (13 spellings incl. lists, two header lines, HT after comma, look-alikes, absent) x Upgrade (9) x Sec-WebSocket-Version (6) x key (8: RFC sample, 3 other valid keys, 1-byte, 200-byte, obs-text, absent); quick = every combination that deviates from the canonical handshake in at most 2 dimensions, thorough = the full product (5616). Each on its own connection. Reference predicate: Connection list contains 'upgrade', Upgrade list contains 'websocket' (all lines joined, comma-split, OWS-trimmed, case-insensitive), version exactly 13, key present. Accepted: 101 + Sec-WebSocket-Accept == own SHA-1/base64 digest; then every byte value and (for a fixed sub-grid) payloads of 1..200000 bytes come back unmodified through a raw echo channel. Refused: 400-499 and the connection is not an echo. distinct_nontrivial = handshakes that were upgraded and payload-checked.",
